@@ -9,7 +9,7 @@
    checked for admissibility inside the model step and echoed. *)
 let variant =
   if Array.length Sys.argv > 3 then
-    (match Sys.argv.(3) with "defective" -> Defective | "sharedvrf" -> SharedVrf | "unguarded" -> Unguarded | _ -> Repaired)
+    (match Sys.argv.(3) with "defective" -> Defective | "sharedvrf" -> SharedVrf | "unguarded" -> Unguarded | "v4pd" -> V4Pd | _ -> Repaired)
   else Repaired
 
 let addr_of_tok (t : string) : addr option =
@@ -124,7 +124,9 @@ let obs_pfx (tok : string option) : ((n * n) * n) option =
 let pd_case toks impl =
   match toks with
   | net :: nb :: pl :: ";" :: ops ->
-    let c = { pd_net = n_of_str net; pd_nbits = n_of_str nb; pd_plen = n_of_str pl } in
+    let (v4, netn) = if String.length net > 2 && net.[1] = ':' then (net.[0] = '4', n_of_str (String.sub net 2 (String.length net - 2)))
+      else (false, n_of_str net) in
+    let c = { pd_net = netn; pd_nbits = n_of_str nb; pd_plen = n_of_str pl; pd_v4 = v4 } in
     if not (pd_new variant c) then ["nilalloc"]
     else if not (N.ltb c.pd_net w128) then ["OUTSIDE-MODEL"]
     else begin
